@@ -1,6 +1,6 @@
 """C02 — parsed responses do not depend on how the byte stream is split into reads."""
 import mpdgen as g
-from connlib import COQ_FILES, run_cases, describe, print_replay
+from connlib import run_bigbin, replay_bigbin, COQ_FILES, run_cases, describe, print_replay
 from vlib import Failure, finish, unhexs, hexs
 
 
@@ -48,9 +48,13 @@ def streams(ctx):
     return out
 
 
+interrupted = []     # (index of the interrupted case, index of an uninterrupted run of the same stream)
+
+
 def gen(ctx):
     rng = ctx.rng
     cases, groups = [], []
+    interrupted.clear()
     for s, tail in streams(ctx):
         segs = [g.seg_whole(s)]
         if len(s) <= 3000:
@@ -71,6 +75,17 @@ def gen(ctx):
                 idx.append(len(cases))
                 cases.append(g.case_line("recv", fl, 1, tail, seg))
         groups.append(idx)
+        # ... and with a receive that is interrupted (the read would block / a timeout layer gives up) once or twice at a read boundary
+        # and then retried — half of the time after the application has sent a command in between (connlib.decorate): the responses
+        # must be the ones of the uninterrupted run
+        if tail == "eof" and 2 <= len(s) <= 3000 and rng.random() < (0.5 if ctx.tier == "quick" else 1.0):
+            for fl in ("b", "a"):
+                seg = [c for c in g.seg_random(rng, s, maxlen=rng.choice([3, 9, 40, 400])) if c]
+                toks = [hexs(c) for c in seg]
+                for _ in range(rng.choice([1, 1, 2])):
+                    toks.insert(rng.randrange(1, len(toks) + 1) if len(toks) > 1 else 1, "!")
+                interrupted.append((len(cases), idx[0]))
+                cases.append(" ".join(["recv", fl, "1", tail] + toks))
     # the same question for connect + receive (bytes in the same read as the greeting, D1)
     for body in (b"foo: bar\nOK\n", b"OK\n", b"", b"x", b"binary: 1\nq\nOK\nrest: 1\nOK\n"):
         s = b"OK MPD 0.23.5\n" + body
@@ -103,14 +118,32 @@ def run(ctx, only=None):
             if "PANIC" in impl[i]:
                 fails.append(Failure(cases[i], "panic: " + impl[i][:300]))
                 break
+    if only is None:
+        for i, j in interrupted:
+            got = [o for o in impl[i].split(" | ")]
+            n_int = cases[i].split(" ").count("!")
+            kept = list(got)
+            for _ in range(n_int):
+                if "io" in kept:
+                    kept.remove("io")
+            if kept != impl[j].split(" | "):
+                fails.append(Failure(cases[i], f"a receive interrupted at a read boundary and retried gives different responses than the uninterrupted run:\n  "
+                                               f"{describe(cases[i])[:400]}\n    -> {impl[i][:400]}\n  uninterrupted -> {impl[j][:400]}", extra={"second_case": cases[j]}))
     if only is not None:
         print_replay(cases, impl, model, fails)
-    dist = {"streams": len(groups), "cases": len(cases), "blocking": sum(1 for c in cases if c.split(" ")[1] == "b"),
+    dist = {"interrupted_receives": len(interrupted), "streams": len(groups), "cases": len(cases), "blocking": sum(1 for c in cases if c.split(" ")[1] == "b"),
             "streams_over_4096_bytes": sum(1 for grp in groups if len(b"".join(unhexs(x) for x in cases[grp[0]].split(" ")[4:])) > 4096),
             "outcome_kinds": {k: sum(1 for o in impl if k in o) for k in ("resp[", "eof", "ueof", "invalid", "io")}}
     nontrivial = {c for c in cases if len(c.split(" ")) > 5}
+    n_big = 0
+    if only is None:
+        bc, _, bf = run_bigbin(ctx)
+        n_big = len(bc)
+        fails = list(fails) + bf
+        dist = dict(dist)
+        dist["large_payload_runs_64KiB_to_8MiB"] = n_big
     return finish(
-        ctx, evaluations=len(cases), distinct_nontrivial=len(nontrivial),
+        ctx, evaluations=len(cases) + n_big, distinct_nontrivial=len(nontrivial),
         rule="each stream (well-formed sequences of generated responses; corrupted, truncated, random; long values/payloads/many lines "
              "straddling 4096 and its doublings) is run whole, byte-at-a-time, under random splits and read-size caps, blocking and async "
              "(thorough: every 2-way split of streams <= 64 bytes and every 3-way split <= 24 bytes); oracle: all runs of one stream print "
@@ -121,6 +154,8 @@ def run(ctx, only=None):
 
 
 def replay(ctx, payload):
+    if any(str(c).startswith("bigbin") for c in payload.get("cases", [])):
+        return replay_bigbin(ctx, [c for c in payload["cases"] if c.startswith("bigbin")])
     cases = list(payload.get("cases", []))
     sc = payload.get("extra", {}).get("second_case")
     if sc:
